@@ -1,6 +1,6 @@
 #!/bin/bash
 # tools/seeds.sh <seed> [<seed> ...]: every quick check at the given seeds (evidence is NOT kept: written to /tmp)
-cd /verif
+cd "$(dirname "$0")/.."
 for s in "$@"; do
   for c in C01 C02 C03 C04 C05 C06 C07 C08 C09 C10 C11 C12 C13 C14 C15 C16 C17 C18 C19 C20; do
     (VERIF_SEED=$s VERIF_EVIDENCE_DIR=/tmp/hplverif-seeds/evidence VERIF_REPLAY_DIR=/tmp/hplverif-seeds/replays /venv/bin/python -m hplverif.run $c > /tmp/seeds_${c}_$s.log 2>&1; rc=$?; [ $rc -ne 0 ] && echo "$c seed $s rc=$rc: $(grep -E 'signature|HARNESS' /tmp/seeds_${c}_$s.log | head -3 | tr '\n' ' ')") &
